@@ -571,7 +571,10 @@ type Promoted<'tcx> = (
 static ORIG_PROMOTED: std::sync::OnceLock<
     for<'tcx> fn(TyCtxt<'tcx>, rustc_hir::def_id::LocalDefId) -> Promoted<'tcx>,
 > = std::sync::OnceLock::new();
-static EARLY: std::sync::Mutex<Vec<(String, String)>> = std::sync::Mutex::new(Vec::new());
+// (def index, address of an arena-allocated clone of the pre-transform body).
+// Serialisation (which resolves callees and would re-enter borrowck/type_of
+// queries of the function being built -> query cycle) is deferred to after_analysis.
+static EARLY: std::sync::Mutex<Vec<(u32, usize)>> = std::sync::Mutex::new(Vec::new());
 
 fn promoted_override<'tcx>(tcx: TyCtxt<'tcx>, def: rustc_hir::def_id::LocalDefId) -> Promoted<'tcx> {
     let r = (ORIG_PROMOTED.get().expect("orig provider"))(tcx, def);
@@ -581,11 +584,12 @@ fn promoted_override<'tcx>(tcx: TyCtxt<'tcx>, def: rustc_hir::def_id::LocalDefId
         && tcx.is_coroutine(def.to_def_id())
         && !r.0.is_stolen()
     {
-        let cx = Cx { tcx };
-        let mut out = String::new();
-        let b = r.0.borrow();
-        cx.body(def.to_def_id(), &b, "promoted", &mut out);
-        EARLY.lock().unwrap().push((tcx.def_path_str(def.to_def_id()), out));
+        let b: Body<'tcx> = r.0.borrow().clone();
+        let stored: &'tcx Body<'tcx> = tcx.arena.alloc(b);
+        EARLY
+            .lock()
+            .unwrap()
+            .push((def.local_def_index.as_u32(), stored as *const Body<'tcx> as usize));
     }
     r
 }
@@ -629,10 +633,12 @@ impl rustc_driver::Callbacks for Cb {
                 continue;
             }
             if tcx.is_coroutine(did) {
-                let key = tcx.def_path_str(did);
-                let early = EARLY.lock().unwrap();
-                if let Some((_, txt)) = early.iter().find(|(k, _)| *k == key) {
-                    out.push_str(txt);
+                let key = ldid.local_def_index.as_u32();
+                let addr = EARLY.lock().unwrap().iter().find(|(k, _)| *k == key).map(|x| x.1);
+                if let Some(addr) = addr {
+                    // SAFETY: the clone was allocated in this tcx's arena during this session
+                    let b: &Body<'tcx> = unsafe { &*(addr as *const Body<'tcx>) };
+                    cx.body(did, b, "promoted", &mut out);
                     nbodies += 1;
                     continue;
                 }
